@@ -604,7 +604,7 @@ ledgers:
       /* a child whose wait faulted may remain: the property only covers children that start failed on or that were successfully waited for */
       if (ch->state != CH_REAPED && ch->state != CH_DEAD_PREHELLO && !(ch->reaps == 0 && ninj == 0 && !pa->faults)) all_reaped_expected = 0;
     }
-    hx_check_ledgers("C05", &before, pa->faults == 0 && all_reaped_expected);
+    hx_check_ledgers("C05", key, &before, pa->faults == 0 && all_reaped_expected);
     if (S->nviol == before_v) vk_hit(CL_LEDGERS_CLEAN);
     scn_release(&sc);
   }
